@@ -564,4 +564,67 @@ the peer sent it -/
 theorem C20_gen_form_ops_untouched :
     Generated.C20.formOpWrites = some (formOpNames.map fun n => (n, implFormOpsWrite)) := by decide
 
+/-! ### Equality with XEP-0115 5.1 in the XEP's own vocabulary (round F, review C20-3) -/
+
+theorem all₂_imp_mem {α β} {R S : α → β → Prop} {l : List α} {l' : List β}
+    (h : ∀ a ∈ l, ∀ b, R a b → S a b) (hr : All₂ R l l') : All₂ S l l' := by
+  induction hr with
+  | nil => exact .nil
+  | cons hab _ ih =>
+    exact .cons (h _ (by simp) _ hab) (ih fun a ha b => h a (by simp [ha]) b)
+
+/-- **the implementation equals the construction of XEP-0115 5.1 written in the XEP's own
+vocabulary** - for every info whose forms are forms in the XEP's sense (each has exactly one
+`FORM_TYPE` field with exactly one value: the side condition names what 5.1 presupposes; what
+the code does outside it is `C20_beyond_xep` and the known findings).  Unlike `Spec`, `XepSpec`
+shares neither the rendering of identities nor the extraction of the form type with `verImpl`. -/
+theorem C20_equals_xep_spec (i : Info) (hx : ∀ F ∈ i.forms, ∃ t, F.xepType = some t) :
+    XepSpec i (verImpl i) := by
+  obtain ⟨ids, feats, forms, rs, hids, hfeats, hforms, hrs, hs⟩ := C20_equals_spec i
+  have hmem : ∀ F ∈ forms, F ∈ i.forms := fun F h => hforms.1.subset h
+  refine ⟨ids, feats, forms, rs, hids, hfeats, hforms.1, ?_, ?_, ?_⟩
+  · refine List.Pairwise.imp_of_mem ?_ hforms.2
+    intro a b ha hb hab
+    obtain ⟨x, hxa⟩ := hx a (hmem a ha)
+    obtain ⟨y, hyb⟩ := hx b (hmem b hb)
+    refine ⟨x, y, hxa, hyb, ?_⟩
+    have e1 := (C20_formType_is_xep a x hxa).1
+    have e2 := (C20_formType_is_xep b y hyb).1
+    simpa [formLe, e1, e2] using hab
+  · refine all₂_imp_mem ?_ hrs
+    intro F hF r hr
+    obtain ⟨t, ht⟩ := hx F (hmem F hF)
+    obtain ⟨fields, rs', h1, h2, h3⟩ := hr
+    exact ⟨t, fields, rs', ht, h1, h2, by rw [h3, (C20_formType_is_xep F t ht).1]⟩
+  · rw [hs]
+    have e : renderId = xepIdentity := funext C20_identity_is_xep
+    rw [e]
+    rfl
+
+/-- non-vacuity: the complex example of XEP-0115 5.3 in miniature - two identities, two
+features, a form with FORM_TYPE and a multi-valued field - satisfies the side condition -/
+example : ∀ F ∈ (⟨[⟨[1], [2], [], [3]⟩], [[5], [4]], [⟨[⟨formTypeVar, [[7]]⟩, ⟨[8], [[2], [1]]⟩]⟩]⟩ : Info).forms,
+    ∃ t, F.xepType = some t := by
+  intro F hF
+  simp only [List.mem_singleton] at hF
+  subst hF
+  exact ⟨[7], by simp [Form.xepType, formTypeVar]⟩
+
+/-- … and the construction determines the string: for a well-formed info whose forms are forms
+in the XEP's sense, anything that satisfies `XepSpec` is what the code hashes -/
+theorem C20_xep_spec_unique (i : Info) (wf : i.WF) (s : Bytes) (h : XepSpec i s) : s = verImpl i := by
+  obtain ⟨ids, feats, forms, rs, hids, hfeats, hperm, hpw, hrs, hs⟩ := h
+  apply C20_spec_unique i wf
+  refine ⟨ids, feats, forms, rs, hids, hfeats, ⟨hperm, ?_⟩, ?_, ?_⟩
+  · refine List.Pairwise.imp ?_ hpw
+    rintro a b ⟨x, y, hxa, hyb, hle⟩
+    simpa [formLe, (C20_formType_is_xep a x hxa).1, (C20_formType_is_xep b y hyb).1] using hle
+  · refine all₂_imp_mem ?_ hrs
+    rintro F _ r ⟨t, fields, rs', ht, h1, h2, h3⟩
+    exact ⟨fields, rs', h1, h2, by rw [h3, (C20_formType_is_xep F t ht).1]⟩
+  · rw [hs]
+    have e : renderId = xepIdentity := funext C20_identity_is_xep
+    rw [e]
+    rfl
+
 end XmppModel.Props.C20
